@@ -86,7 +86,8 @@ theorem TInv.merge (hT : TInv W seen cls s) {r : Req} {G : Forest} (hr : FlatReq
     {en : Str} {existing : ItemKind} (hget : amGet s.agg.imports en = some existing)
     (h : mergeKind existing r.2.1 r.2.2 s = .ok ((), s1)) {cls' : Str → Str}
     (hc1 : cls' r.1 = en) (hc2 : ∀ p, p ∈ seen → cls' p.1.1 = cls p.1.1) :
-    TInv W ((r, G) :: seen) cls' s1 ∧ s1.agg.imports = s.agg.imports ∧ s1.agg.redirects = s.agg.redirects := by
+    TInv W ((r, G) :: seen) cls' s1 ∧ s1.agg.imports = s.agg.imports ∧ s1.agg.redirects = s.agg.redirects ∧
+      s1.cfg = s.cfg := by
   obtain ⟨F, himp⟩ := hT.imp en existing hget
   obtain ⟨e, ti, hge, hti, hflat, hFnd⟩ := himp
   rw [hget] at hge; cases hge
@@ -109,7 +110,7 @@ theorem TInv.merge (hT : TInv W seen cls s) {r : Req} {G : Forest} (hr : FlatReq
     obtain ⟨F0, h0⟩ := hT.imp n _ g1
     rw [(keep n F0 hne h0).det h1] at h0; exact h0
   have hkF : keysNd F = true := keysNd_of_nd F hFnd
-  refine ⟨⟨hTS1.ainv, ?_, ?_, ?_, ?_, ?_, ?_, ?_⟩, hm.imports, hm.redirects⟩
+  refine ⟨⟨hTS1.ainv, ?_, ?_, ?_, ?_, ?_, ?_, ?_⟩, hm.imports, hm.redirects, hm.cfg⟩
   · intro n k hn
     rw [hm.imports] at hn
     by_cases hne : n = en
@@ -185,7 +186,7 @@ theorem TInv.fresh (hT : TInv W seen cls s) {r : Req} {G : Forest} (hr : FlatReq
     {fuel : Nat} {k' : ItemKind} (h : remapKind fuel r.2.1 r.2.2 s = .ok (k', s1)) {cls' : Str → Str}
     (hc1 : cls' r.1 = r.1) (hc2 : ∀ p, p ∈ seen → cls' p.1.1 = cls p.1.1) :
     TInv W ((r, G) :: seen) cls' (addImport s1 r.1 k') ∧ s1.agg.imports = s.agg.imports ∧
-      s1.agg.redirects = s.agg.redirects := by
+      s1.agg.redirects = s.agg.redirects ∧ s1.cfg = s.cfg := by
   obtain ⟨i, si, hk, hsi, hid, huses, hleaf, hG⟩ := hr.shape
   rw [hk] at h
   have hmiss : alGet s.agg.remapped (GTy.mk' r.2.1 (.interface i)) = none := by
@@ -222,7 +223,7 @@ theorem TInv.fresh (hT : TInv W seen cls s) {r : Req} {G : Forest} (hr : FlatReq
     obtain ⟨F0, h0⟩ := hT.imp n _ g1
     rw [(keep n F0 h0).2.det h1] at h0; exact h0
   refine ⟨⟨⟨⟨hfs.rinv.sound, hfs.rinv.closed, hfs.rinv.shape⟩, by rw [show (addImport s1 r.1 _).chk = s.chk from hfs.chk]; exact hT.ainv.cinv.ext hfs.ext,
-      hfs.ext.resources.trans hT.ainv.nores⟩, ?_, ?_, ?_, ?_, ?_, ?_, ?_⟩, hfs.imports, hfs.redirects⟩
+      hfs.ext.resources.trans hT.ainv.nores⟩, ?_, ?_, ?_, ?_, ?_, ?_, ?_⟩, hfs.imports, hfs.redirects, hfs.cfg⟩
   · intro n k hn
     rw [hgi] at hn
     by_cases hne : r.1 = n
